@@ -6,6 +6,7 @@ import (
 	"io"
 	"math"
 	"os"
+	"sort"
 	"sync"
 	"time"
 
@@ -441,14 +442,16 @@ func (fs *fsMutable) ReadDir(
 		return
 	}
 
-	var i uint64 = 1
-	for _, c := range children {
-		i++
-		if i < uint64(offset) {
-			continue
-		}
-		child := *c
-		child.Offset = fuseops.DirOffset(i) // This is where dirOffset matters..
+	// children are listed in a stable order (by inode), each with the offset at which the listing resumes after it,
+	// so that a listing continued from any returned offset yields every child exactly once
+	ids := make([]fuseops.InodeID, 0, len(children))
+	for id := range children {
+		ids = append(ids, id)
+	}
+	sort.Slice(ids, func(i, j int) bool { return ids[i] < ids[j] })
+	for i := offset; i < len(ids); i++ {
+		child := *children[ids[i]]
+		child.Offset = fuseops.DirOffset(i + 1) // This is where dirOffset matters..
 		n := fuseutil.WriteDirent(op.Dst[op.BytesRead:], child)
 		if n == 0 {
 			break
